@@ -385,8 +385,8 @@ pub fn run(args: &Args) -> i32 {
         "C08" => (Prop::C08, 5, 6),
         "C09" => (Prop::C09, 5, 6),
         "C10" => (Prop::C10, 5, 6),
-        "C11" => (Prop::C11, 4, 5),
-        "C18" => (Prop::C18, 4, 5),
+        "C11" => (Prop::C11, 5, 6),
+        "C18" => (Prop::C18, 5, 6),
         _ => engine::machinery_failure("c08: unknown property"),
     };
     let report = Report::new(args, "model_checking");
